@@ -12,45 +12,76 @@ package main
 //   int, int64     BitVec 64 read as two's complement (>> is BitVec.sshiftRight, < is BitVec.slt)
 //   uint, uint64   BitVec 64 unsigned
 //   byte, uint8    BitVec 8
+//   int8           BitVec 8 read as two's complement (conversions to 64 bits sign-extend)
 //   bool           Bool
 //   []byte, string List (BitVec 8)      (a string is the list of its bytes)
-//   []int          List (BitVec 64)
+//   []int8         List (BitVec 8)
+//   []int, []uint  List (BitVec 64)
+//   p *[N]T        (parameters that are only read by p[i] / len(p)) the list of the N elements
+//   error          Option String: none = nil, some "ErrX" = an error that wraps the package variable ErrX = errors.New(…)
 //
-// Statements: x := e, var x T [= e], x = e, x op= e, x++/x--, a[i] = e, if/else without
-// init, `if c { …; return e }` in tail position, `for i := range a`, `for _, v := range a`,
-// `for i := range n` (int), nested blocks, return.
+// Statements: x := e, var x T [= e], x = e, x op= e, x++/x--, a[i] = e, _ = a[c] (bounds-check hint), if/else without
+// init, return (anywhere, see below), `for i := range a`, `for _, v := range a`, `for i := range n` (int),
+// `for i := a; i < b; i++` and its variants (<=, >, >=, i--, i += k, i -= k; loops_flow.go: forStmt),
+// `for len(x) >= c { …; x = x[k:]; … }` (whileStmt), x = x[k:] on a slice parameter, nested blocks.
 // Expressions: constants, variables, read-only package-level slice variables, unary - ^ ! +,
 // binary + - * & | ^ &^ << >> == != < <= > >= && ||, a[i], len, append, make, slice
 // literals, conversions between the integer types and []byte(string), calls of functions
-// of the same package translated earlier in the same translateLoopFuncs call.
+// of the same package translated earlier in the same translateLoopFuncs call (unless they can panic or
+// write into a parameter), math/bits.TrailingZeros, fmt.Errorf("…%w…", …, ErrX, …), nil and package-level
+// errors.New variables as error values.
+//
+// Two shapes of output.  A function in which nothing can panic and every return is the last statement of the
+// function or of an else-less `if` in tail position is translated as a plain value, exactly as before (range loops
+// are List.foldl, `if` is a conditional let).  Any other function is translated as a Go.Flow (Iota/Model/GoBits.lean):
+// every statement list yields run st / done r / panic, loops are Go.forIn / Go.whileFuel, the result type is
+// Option with none = run-time panic.  Inside such a function the parts that need neither keep the plain shape.
+//
+// Panics that are modelled: a[i] whose index is not in range by construction (below) is checked against the
+// length before the statement that evaluates it (under && / || only when the right operand is evaluated);
+// `_ = a[c]` is only that check; x = x[k:] checks k ≤ len(x); a non-constant int shift count is checked to be
+// non-negative in functions that are Go.Flow for another reason.  Not modelled (`.toNat` is used): negative
+// make lengths, negative shift counts in plain-valued functions, nil array pointers.
+//
+// Indexing a[i] (read or write) is in range by construction where i is the key of an enclosing
+// `for i := range a` over the same variable and neither i nor a is reassigned in that loop; it is then rendered
+// with the total List.getD/List.set without a check.
 //
 // Slices are translated as VALUES.  That is only sound when no sharing of backing arrays
 // can be observed, which the translator enforces syntactically (every local slice variable
 // owns its backing array):
-//   * `y := x` / `y = x` / []T(x) with x a slice variable, and slice expressions x[a:b], are rejected;
+//   * `y := x` / `y = x` / []T(x) with x a slice variable, and slice expressions x[a:b], are rejected
+//     (except the statement x = x[k:] on a slice parameter x: List.drop);
 //   * a parameter or package variable is never the first argument of append and is never
-//     returned as such, so results never alias arguments and callees never write into
-//     arrays of their callers;
+//     returned as such, so results never alias arguments;
 //   * `append(x, …)` with x a local variable is accepted as `x = append(x, …)`, or when it
 //     is the textually last reference to the singly-defined x and sits in the same loop
 //     body as the declaration of x (x is dead afterwards);
-//   * `a[i] = e` is accepted only for a local `a := make(…)` that is never reassigned and
-//     never the first argument of append.
-// Indexing a[i] (read or write) is accepted only where i is the key of an enclosing
-// `for i := range a` over the same variable and neither i nor a is reassigned in that loop,
-// so the index is in range by construction; it is rendered with the total List.getD/List.set.
-// Only executions that do not panic are described: negative shift counts and negative make
-// lengths (run-time panics in Go) are not modelled (`.toNat` is used).
+//   * `a[i] = e` is accepted for a local `a := make(…)` that is never reassigned and
+//     never the first argument of append, and for a slice PARAMETER a (an output buffer) when the function
+//     returns no slice and the element type of a differs from that of every other slice / array parameter
+//     (so the arrays cannot overlap): the content of the caller's array on return becomes an additional
+//     component of the result.  An output buffer that is also resliced is the pair
+//     (part already passed, current window).
+// Three-clause loops are folds over Go.forUp / Go.forDown (the list of values of the loop variable, computed
+// in 64-bit arithmetic); they are accepted when the loop variable is not assigned in the body, the bound does
+// not depend on anything the body assigns, and the step cannot wrap around before the condition fails
+// (Iota/Tie/GoFlow.lean proves forUp_sound / forDown_sound under exactly that side condition).
+// Condition loops are accepted only in the form that provably terminates by consuming a slice parameter.
 // Everything else makes the extractor fail.
 
 import (
 	"fmt"
 	"go/ast"
+	"go/build"
 	"go/constant"
 	"go/importer"
+	"go/parser"
 	"go/token"
 	"go/types"
+	"os"
 	"path/filepath"
+	"regexp"
 	"sort"
 	"strings"
 )
@@ -78,14 +109,84 @@ type srcImporter struct{}
 func (srcImporter) Import(path string) (*types.Package, error) {
 	switch {
 	case strings.HasPrefix(path, modulePrefix):
-		return typeCheck(load(filepath.Join(*repo, strings.TrimPrefix(path, modulePrefix)))).tpkg, nil
+		return importExternal(path, filepath.Join(*repo, strings.TrimPrefix(path, modulePrefix)))
 	case strings.HasPrefix(path, iotaGoPrefix):
-		return typeCheck(load(filepath.Join(iotaGoDir(), strings.TrimPrefix(path, iotaGoPrefix)))).tpkg, nil
+		return importExternal(path, filepath.Join(iotaGoDir(), strings.TrimPrefix(path, iotaGoPrefix)))
+	}
+	if dir := modCacheDir(path); dir != "" {
+		return importExternal(path, dir)
 	}
 	if stdImporter == nil {
 		stdImporter = importer.ForCompiler(token.NewFileSet(), "source", nil)
 	}
 	return stdImporter.Import(path)
+}
+
+var (
+	modReqs  map[string]string // module path -> version, from the go.mod of the repository
+	extCache = map[string]*types.Package{}
+)
+
+// modCacheDir returns the directory of import path `path` in the module cache when it belongs to a
+// module required by the go.mod of the repository ("" otherwise, e.g. for the standard library).
+func modCacheDir(path string) string {
+	if modReqs == nil {
+		modReqs = map[string]string{}
+		b, err := os.ReadFile(filepath.Join(*repo, "go.mod"))
+		if err != nil {
+			die("go.mod: %v", err)
+		}
+		for _, m := range regexp.MustCompile(`(?m)^\s*(?:require\s+)?([^\s()]+\.[^\s()]+/?[^\s()]*)\s+(v[^\s]+)`).FindAllStringSubmatch(string(b), -1) {
+			modReqs[m[1]] = m[2]
+		}
+	}
+	best := ""
+	for m := range modReqs {
+		if (path == m || strings.HasPrefix(path, m+"/")) && len(m) > len(best) {
+			best = m
+		}
+	}
+	if best == "" {
+		return ""
+	}
+	var esc strings.Builder
+	for _, r := range best {
+		if 'A' <= r && r <= 'Z' {
+			esc.WriteByte('!')
+			r += 'a' - 'A'
+		}
+		esc.WriteRune(r)
+	}
+	return filepath.Join(modCache(), filepath.FromSlash(esc.String())+"@"+modReqs[best], filepath.FromSlash(strings.TrimPrefix(path, best)))
+}
+
+// importExternal type-checks an imported package (files selected by the build constraints of linux/amd64).
+func importExternal(path, dir string) (*types.Package, error) {
+	if p, ok := extCache[path]; ok {
+		return p, nil
+	}
+	ctx := build.Default
+	ctx.GOOS, ctx.GOARCH, ctx.CgoEnabled = "linux", "amd64", false
+	bp, err := ctx.ImportDir(dir, 0)
+	if err != nil {
+		return nil, err
+	}
+	fset := token.NewFileSet()
+	var files []*ast.File
+	for _, n := range bp.GoFiles {
+		f, err := parser.ParseFile(fset, filepath.Join(dir, n), nil, 0)
+		if err != nil {
+			return nil, err
+		}
+		files = append(files, f)
+	}
+	conf := types.Config{Importer: srcImporter{}, Sizes: types.SizesFor("gc", "amd64")}
+	p, err := conf.Check(path, fset, files, nil)
+	if err != nil {
+		return nil, err
+	}
+	extCache[path] = p
+	return p, nil
 }
 
 // typeCheck runs go/types (sizes of gc/amd64: 64-bit int) over the files of p.
@@ -135,20 +236,26 @@ const (
 	kBytes               // []byte
 	kInts                // []int
 	kString              // string
+	kInt8                // int8
+	kInt8s               // []int8
+	kUints               // []uint
+	kErr                 // error
 )
 
 func (k lkind) lean() string {
 	switch k {
 	case kInt, kUint:
 		return "BitVec 64"
-	case kByte:
+	case kByte, kInt8:
 		return "BitVec 8"
 	case kBool:
 		return "Bool"
-	case kBytes, kString:
+	case kBytes, kString, kInt8s:
 		return "List (BitVec 8)"
-	case kInts:
+	case kInts, kUints:
 		return "List (BitVec 64)"
+	case kErr:
+		return "Option String"
 	}
 	die("lkind.lean")
 	return ""
@@ -158,15 +265,16 @@ func (k lkind) width() int {
 	switch k {
 	case kInt, kUint:
 		return 64
-	case kByte:
+	case kByte, kInt8:
 		return 8
 	}
 	die("lkind.width")
 	return 0
 }
 
-func (k lkind) isNum() bool   { return k == kInt || k == kUint || k == kByte }
-func (k lkind) isSlice() bool { return k == kBytes || k == kInts }
+func (k lkind) isNum() bool    { return k == kInt || k == kUint || k == kByte || k == kInt8 }
+func (k lkind) isSlice() bool  { return k == kBytes || k == kInts || k == kInt8s || k == kUints }
+func (k lkind) isSigned() bool { return k == kInt || k == kInt8 }
 
 func (k lkind) elem() lkind {
 	switch k {
@@ -174,6 +282,10 @@ func (k lkind) elem() lkind {
 		return kByte
 	case kInts:
 		return kInt
+	case kInt8s:
+		return kInt8
+	case kUints:
+		return kUint
 	}
 	die("lkind.elem")
 	return 0
@@ -189,7 +301,7 @@ func init() {
 		structure class inductive return try catch finally unless break continue using calc suffices obtain
 		nomatch nofun Type Sort Prop forall exists macro syntax notation infix infixl infixr prefix postfix
 		private protected partial unsafe noncomputable abbrev axiom opaque extends local scoped set_option
-		attribute mutual export this sorry true false List BitVec Nat Int Bool`) {
+		attribute mutual export this sorry true false List BitVec Nat Int Bool Go Option Unit String some none decide`) {
 		leanReserved[w] = true
 	}
 }
@@ -200,6 +312,7 @@ type loopSet struct {
 	p       *pkg
 	tp      *typedPkg
 	done    map[string]bool // functions translated so far
+	flowFns map[string]bool // those of them that may panic or write into a parameter (result is not a plain value)
 	all     map[string]bool // every function of the call (for name clashes)
 	pkgVars []*types.Var    // package variables used, in order of first use
 	varText map[*types.Var]string
@@ -210,6 +323,11 @@ type loopCtx struct {
 	plain, indexed map[types.Object]bool
 }
 
+// safeIn: a[i] is in range by construction in this loop (i is its key, it ranges over a, neither is reassigned).
+func (l *loopCtx) safeIn(ao, io types.Object) bool {
+	return l.key != nil && l.key == io && l.rng == ao && !l.plain[io] && !l.plain[ao]
+}
+
 type ownFacts struct {
 	defs     map[types.Object][]ast.Expr // defining expressions (nil for zero-valued declarations)
 	plain    map[types.Object]int        // reassignments after the definition
@@ -217,6 +335,7 @@ type ownFacts struct {
 	lastRef  map[types.Object]token.Pos
 	declLoop map[types.Object]ast.Node
 	loops    []ast.Node
+	resliced map[types.Object]bool // x = x[k:] somewhere
 }
 
 type loopTr struct {
@@ -225,12 +344,18 @@ type loopTr struct {
 	info       *types.Info
 	fd         *ast.FuncDecl
 	rets       []lkind
-	loops      []*loopCtx
 	vars       map[types.Object]string
 	params     map[types.Object]bool
 	facts      *ownFacts
 	fresh      int
 	selfAppend *ast.CallExpr
+	// panics, early returns and output buffers (see loops_flow.go)
+	flowFn  bool                    // the body is built as a Go.Flow; the result type is Option
+	safe    map[*ast.IndexExpr]bool // index expressions that are in range by construction
+	checks  []string                // bounds checks of the expressions translated since the last takeChecks
+	outBufs []types.Object          // slice parameters the function writes into, in parameter order
+	pairBuf map[types.Object]bool   // those of them that are also resliced: (part already passed, current window)
+	retTy   string                  // Lean type of the result tuple
 }
 
 func (t *loopTr) fail(n ast.Node, format string, a ...interface{}) {
@@ -258,23 +383,56 @@ func (t *loopTr) kindOf(ty types.Type, at ast.Node) lkind {
 			return kUint
 		case types.Uint8:
 			return kByte
+		case types.Int8:
+			return kInt8
 		case types.Bool, types.UntypedBool:
 			return kBool
 		case types.String:
 			return kString
 		}
 	case *types.Slice:
-		if b, ok := u.Elem().Underlying().(*types.Basic); ok {
-			switch b.Kind() {
-			case types.Uint8:
-				return kBytes
-			case types.Int, types.Int64:
-				return kInts
+		if k, ok := sliceKind(u.Elem()); ok {
+			return k
+		}
+	case *types.Pointer: // *[N]T, only for parameters that are read by index (checked where it is used)
+		if a, ok := u.Elem().Underlying().(*types.Array); ok {
+			if k, ok := sliceKind(a.Elem()); ok {
+				return k
 			}
+		}
+	case *types.Interface:
+		if types.Identical(ty, types.Universe.Lookup("error").Type()) {
+			return kErr
 		}
 	}
 	t.fail(at, "type %s is outside the translated subset", ty)
 	return 0
+}
+
+func sliceKind(elem types.Type) (lkind, bool) {
+	if b, ok := elem.Underlying().(*types.Basic); ok {
+		switch b.Kind() {
+		case types.Uint8:
+			return kBytes, true
+		case types.Int, types.Int64:
+			return kInts, true
+		case types.Int8:
+			return kInt8s, true
+		case types.Uint, types.Uint64:
+			return kUints, true
+		}
+	}
+	return 0, false
+}
+
+// arrayLen returns N when ty is *[N]T.
+func arrayLen(ty types.Type) (int64, bool) {
+	if p, ok := ty.Underlying().(*types.Pointer); ok {
+		if a, ok := p.Elem().Underlying().(*types.Array); ok {
+			return a.Len(), true
+		}
+	}
+	return 0, false
 }
 
 func (t *loopTr) typeOf(e ast.Expr) types.TypeAndValue {
@@ -327,6 +485,7 @@ func (t *loopTr) collectFacts() {
 		indexed:  map[types.Object]bool{},
 		lastRef:  map[types.Object]token.Pos{},
 		declLoop: map[types.Object]ast.Node{},
+		resliced: map[types.Object]bool{},
 	}
 	t.facts = f
 	ast.Inspect(t.fd.Body, func(n ast.Node) bool {
@@ -347,6 +506,9 @@ func (t *loopTr) collectFacts() {
 	ast.Inspect(t.fd.Body, func(n ast.Node) bool {
 		switch s := n.(type) {
 		case *ast.AssignStmt:
+			if o, _ := t.resliceOf(s); o != nil {
+				f.resliced[o] = true
+			}
 			for i, l := range s.Lhs {
 				switch l := unparen(l).(type) {
 				case *ast.Ident:
